@@ -142,6 +142,42 @@ func (ex *Executor) reflectCall(st *State, name string, args []Value) Value {
 	switch strings.TrimPrefix(name, "(reflect.Value).") {
 	case "IsValid":
 		return tt.Bool(v.valid)
+	case "Elem":
+		if !v.valid {
+			ex.require(st, tt.False, "reflect: call of reflect.Value.Elem on zero Value")
+		}
+		pt, ok := v.typ.Underlying().(*types.Pointer)
+		if !ok {
+			if _, isI := v.typ.Underlying().(*types.Interface); isI {
+				iv := ex.rvLoad(st, v).(IfaceV)
+				if iv.typ == nil {
+					return &ReflectValue{}
+				}
+				return &ReflectValue{valid: true, typ: iv.typ, val: iv.val}
+			}
+			ex.require(st, tt.False, "reflect: call of reflect.Value.Elem on a non-pointer Value")
+		}
+		p := ex.rvLoad(st, v).(Ptr)
+		if p.isNil() {
+			return &ReflectValue{}
+		}
+		p.stride = ex.lay.leaves(pt.Elem())
+		return &ReflectValue{valid: true, typ: pt.Elem(), addr: true, ptr: p}
+	case "Interface":
+		return IfaceV{typ: v.typ, val: ex.rvLoad(st, v)}
+	case "IsNil":
+		if p, ok := ex.rvLoad(st, v).(Ptr); ok {
+			return tt.Bool(p.isNil())
+		}
+		unsupported("reflect model: IsNil on %s", v.typ)
+	case "IsZero":
+		switch x := ex.rvLoad(st, v).(type) {
+		case *Term:
+			return tt.Eq(x, tt.Const(x.w, 0))
+		case StringV:
+			return tt.Bool(x.s == "")
+		}
+		unsupported("reflect model: IsZero on %s", v.typ)
 	case "Type":
 		if !v.valid {
 			ex.require(st, tt.False, "reflect: call of reflect.Value.Type on zero Value")
